@@ -1,5 +1,5 @@
 (* C18 -- the named theorems, derived from the per-request lemmas. *)
-From PV Require Import C18.Spec C18.Proofs C18.ProofsReq C18.ProofsElig.
+From PV Require Import C18.Spec C18.Legacy C18.Proofs C18.ProofsReq C18.ProofsElig.
 Require Import Lia.
 
 Lemma ssortedb_cons_iff a l : ssortedb (a :: l) = true <-> (forall x, In x l -> a < x) /\ ssortedb l = true.
@@ -39,13 +39,13 @@ Theorem get_reads_kernel k pid p : wf_kernelb k = true -> kget pid k = Some p ->
        run_req pid (Rlimit res None) k = (Val (RPair s h), k).
 Proof.
   intros Hk Hg Hwf Hpid.
-  assert (M : forall r exp, uses_eligible p r = false -> huge_cpu r = false -> spec_req pid r k = Some exp -> run_req pid r k = exp).
-  { intros r exp Hu Hh. apply (model_meets_spec k pid p r exp Hk Hg Hwf Hpid); [rewrite Hu; discriminate|exact Hh]. }
+  assert (M : forall r exp, spec_req pid r k = Some exp -> run_req pid r k = exp).
+  { intros r exp. apply (model_meets_spec k pid p r exp Hk Hg Hwf Hpid). }
   repeat split.
-  - apply M; try reflexivity. unfold spec_req, spec_get. rewrite Hg. reflexivity.
-  - apply M; try reflexivity. unfold spec_req, spec_get. rewrite Hg. reflexivity.
-  - apply M; try reflexivity. unfold spec_req, spec_get. rewrite Hg. reflexivity.
-  - intros res s h Hres Hn. apply M; try reflexivity. unfold spec_req, spec_get. rewrite Hg.
+  - apply M. unfold spec_req, spec_get. rewrite Hg. reflexivity.
+  - apply M. unfold spec_req, spec_get. rewrite Hg. reflexivity.
+  - apply M. unfold spec_req, spec_get. rewrite Hg. reflexivity.
+  - intros res s h Hres Hn. apply M. unfold spec_req, spec_get. rewrite Hg.
     unfold res_ok, RLIM_NLIMITS.
     replace ((0 <=? res) && (res <? 16)) with true by (symmetry; apply andb_true_iff; split; [apply Z.leb_le|apply Z.ltb_lt]; lia).
     rewrite Hn. reflexivity.
@@ -148,14 +148,18 @@ Proof.
   apply (meets_aff_get k' pid _ _ Hg' Hnr Hs). unfold spec_req, spec_get. rewrite Hg'. reflexivity.
 Qed.
 
-Theorem empty_affinity_all_eligible k pid p : kget pid k = Some p -> wf_procb k p = true -> plain_eligb p = true ->
+Theorem empty_affinity_all_eligible k pid p : kget pid k = Some p -> wf_procb k p = true ->
   let k' := kupd pid (set_mask (p_elig p)) k in
   run_req pid (Affinity (Some [])) k = (Val RNone, k')
   /\ kget pid k' = Some (set_mask (p_elig p) p)
   /\ (forall q, q <> pid -> kget q k' = kget q k).
 Proof.
-  intros Hg Hwf Hp k'. pose proof (wf_procb_facts k p Hwf) as F. repeat split.
-  - apply (meets_aff_empty k pid p _ Hg (wf_elig_rng p F) Hp). unfold spec_req. rewrite Hg. reflexivity.
+  intros Hg Hwf k'. pose proof (wf_procb_facts k p Hwf) as F.
+  assert (Hne : p_elig p <> []).
+  { intros E. pose proof (wf_mask_ne p F) as Hm. pose proof (wf_mask_sub p F) as Hs.
+    destruct (p_mask p) as [|x xs]; [congruence|]. specialize (Hs x (or_introl eq_refl)). rewrite E in Hs. destruct Hs. }
+  repeat split.
+  - apply (meets_aff_empty k pid p _ Hg (wf_elig_rng p F) Hne). unfold spec_req. rewrite Hg. reflexivity.
   - unfold k'. rewrite kget_kupd_same, Hg. reflexivity.
   - intros q Hq. apply kget_kupd_other. exact Hq.
 Qed.
@@ -198,8 +202,7 @@ Theorem invalid_rejected k pid p : kget pid k = Some p -> wf_procb k p = true ->
   (* a level without a class *)
   /\ (forall v, run_req pid (Ionice None (Some v)) k = (Exc ValueError, k))
   (* a CPU list naming only nonexistent or ineligible CPUs *)
-  /\ (forall cpus, plain_eligb p = true -> cpus <> [] -> (forall c, In c cpus -> ~ In c (p_elig p)) ->
-        (forall c, In c cpus -> fits_long c = true) ->
+  /\ (forall cpus, cpus <> [] -> (forall c, In c cpus -> ~ In c (p_elig p)) ->
         run_req pid (Affinity (Some cpus)) k = (Exc ValueError, k))
   (* a limits argument that is not a pair *)
   /\ (forall res l, length l <> 2%nat -> run_req pid (Rlimit res (Some l)) k = (Exc ValueError, k)).
@@ -216,61 +219,65 @@ Proof.
     + apply orb_true_iff. destruct Hc; [left|right]; apply Z.eqb_eq; assumption.
     + apply negb_true_iff. apply Z.eqb_neq. exact Hv.
   - intros v. reflexivity.
-  - intros cpus Hp Hne Hout Hfit. destruct cpus as [|c cs]; [congruence|].
+  - intros cpus Hne Hout. destruct cpus as [|c cs]; [congruence|].
     assert (Hall : all_in (c :: cs) (p_elig p) = false).
     { unfold all_in. cbn [forallb]. replace (memz c (p_elig p)) with false; [reflexivity|].
       symmetry. apply memz_false. apply Hout. left. reflexivity. }
-    apply (meets_aff_invalid k pid p c cs _ Hg (wf_elig_rng p F) Hp Hall).
-    + apply not_true_iff_false. intros E. apply existsb_exists in E. destruct E as [x [Hx E]].
-      rewrite (Hfit x Hx) in E. discriminate.
-    + unfold spec_req. rewrite Hg, Hall.
-      replace (none_in (c :: cs) (p_elig p)) with true; [reflexivity|].
-      symmetry. unfold none_in. apply forallb_forall. intros x Hx. apply negb_true_iff. apply memz_false. apply Hout. exact Hx.
+    apply (meets_aff_invalid k pid p c cs _ Hg Hall).
+    unfold spec_req. rewrite Hg, Hall.
+    replace (none_in (c :: cs) (p_elig p)) with true; [reflexivity|].
+    symmetry. unfold none_in. apply forallb_forall. intros x Hx. apply negb_true_iff. apply memz_false. apply Hout. exact Hx.
   - intros res l Hl. apply (meets_rlimit k pid p _ _ _ Hg Hpid). unfold spec_req. rewrite Hg.
     destruct l as [|s [|h [|x r]]]; try reflexivity. cbn [length] in Hl. congruence.
 Qed.
 
-(* ------------------------------------------------ refutations (the defects) *)
+(* ------------------------------------------------ the repaired defects: legacy code refuted, current code right *)
 Definition rl0 : list (Z * Z) := repeat (-1, -1) 16.
 Definition mkp (mask elig : list Z) : proc :=
   {| p_nice := 0; p_ioprio := 0; p_mask := mask; p_elig := elig; p_rlim := rl0 |}.
 Definition mkk (p : proc) (ncpu : Z) : kernel := {| k_procs := [(10, p)]; k_ncpu := ncpu; k_nr_cpu_ids := 64 |}.
 
-(* a cpuset of two ranges: only the first range is selected *)
-Theorem empty_affinity_refuted_multirange :
+(* LEGACY: a cpuset of two ranges: only the first range was selected *)
+Theorem legacy_empty_affinity_refuted_multirange :
   exists k pid p, wf_kernelb k = true /\ kget pid k = Some p /\ wf_procb k p = true /\ p_mask p = p_elig p
-    /\ exists k', run_req pid (Affinity (Some [])) k = (Val RNone, k')
-       /\ kget pid k' = Some (set_mask [0; 1; 2; 3] p) /\ p_elig p = [0; 1; 2; 3; 8; 9; 10; 11].
+    /\ p_elig p = [0; 1; 2; 3; 8; 9; 10; 11]
+    /\ (exists k', leg_cpu_affinity pid (Some []) k = (Val RNone, k') /\ kget pid k' = Some (set_mask [0; 1; 2; 3] p))
+    /\ run_req pid (Affinity (Some [])) k = (Val RNone, kupd pid (set_mask (p_elig p)) k).
 Proof.
   exists (mkk (mkp [0;1;2;3;8;9;10;11] [0;1;2;3;8;9;10;11]) 12), 10, (mkp [0;1;2;3;8;9;10;11] [0;1;2;3;8;9;10;11]).
-  repeat split; try (vm_compute; reflexivity).
-  eexists. repeat split; vm_compute; reflexivity.
+  split; [vm_compute; reflexivity|]. split; [vm_compute; reflexivity|]. split; [vm_compute; reflexivity|].
+  split; [reflexivity|]. split; [reflexivity|]. split; [|vm_compute; reflexivity].
+  eexists. split; vm_compute; reflexivity.
 Qed.
 
-(* a process narrowed to [0,1] earlier stays there *)
-Theorem empty_affinity_refuted_narrowed :
+(* LEGACY: a process narrowed to [0,1] earlier stayed there *)
+Theorem legacy_empty_affinity_refuted_narrowed :
   exists k pid p, wf_kernelb k = true /\ kget pid k = Some p /\ wf_procb k p = true
     /\ p_elig p = [0; 1; 2; 3; 4; 5; 6; 7] /\ p_mask p = [0; 1]
-    /\ exists k', run_req pid (Affinity (Some [])) k = (Val RNone, k') /\ kget pid k' = Some p.
+    /\ (exists k', leg_cpu_affinity pid (Some []) k = (Val RNone, k') /\ kget pid k' = Some p)
+    /\ run_req pid (Affinity (Some [])) k = (Val RNone, kupd pid (set_mask (p_elig p)) k).
 Proof.
   exists (mkk (mkp [0;1] [0;1;2;3;4;5;6;7]) 8), 10, (mkp [0;1] [0;1;2;3;4;5;6;7]).
-  repeat split; try (vm_compute; reflexivity).
-  eexists. repeat split; vm_compute; reflexivity.
+  split; [vm_compute; reflexivity|]. split; [vm_compute; reflexivity|]. split; [vm_compute; reflexivity|].
+  split; [reflexivity|]. split; [reflexivity|]. split; [|vm_compute; reflexivity].
+  eexists. split; vm_compute; reflexivity.
 Qed.
 
-(* an ineligible CPU is answered with OSError(EINVAL), not ValueError *)
-Theorem invalid_cpu_refuted :
-  exists k pid p, wf_kernelb k = true /\ kget pid k = Some p /\ wf_procb k p = true
-    /\ p_elig p = [0; 2] /\ run_req pid (Affinity (Some [1])) k = (Exc OSError, k).
+(* LEGACY: cpuset "0,2", request [1]: OSError(EINVAL) instead of ValueError *)
+Theorem legacy_invalid_cpu_refuted :
+  exists k pid p, wf_kernelb k = true /\ kget pid k = Some p /\ wf_procb k p = true /\ p_elig p = [0; 2]
+    /\ leg_cpu_affinity pid (Some [1]) k = (Exc OSError, k)
+    /\ run_req pid (Affinity (Some [1])) k = (Exc ValueError, k).
 Proof.
   exists (mkk (mkp [0;2] [0;2]) 4), 10, (mkp [0;2] [0;2]).
   repeat split; vm_compute; reflexivity.
 Qed.
 
-(* a CPU id beyond a C long is answered with OverflowError *)
-Theorem huge_cpu_refuted :
-  exists k pid p, wf_kernelb k = true /\ kget pid k = Some p /\ wf_procb k p = true /\ plain_eligb p = true
-    /\ run_req pid (Affinity (Some [2 ^ 70])) k = (Exc OverflowError, k).
+(* LEGACY: a CPU id beyond a C long: OverflowError instead of ValueError *)
+Theorem legacy_huge_cpu_refuted :
+  exists k pid p, wf_kernelb k = true /\ kget pid k = Some p /\ wf_procb k p = true
+    /\ leg_cpu_affinity pid (Some [2 ^ 70]) k = (Exc OverflowError, k)
+    /\ run_req pid (Affinity (Some [2 ^ 70])) k = (Exc ValueError, k).
 Proof.
   exists (mkk (mkp [0;1;2;3] [0;1;2;3]) 4), 10, (mkp [0;1;2;3] [0;1;2;3]).
   repeat split; vm_compute; reflexivity.
@@ -278,14 +285,13 @@ Qed.
 
 (* the hypotheses of the theorems above are satisfiable by a non-trivial state *)
 Definition ex_p : proc :=
-  {| p_nice := 3; p_ioprio := 16389; p_mask := [2; 3; 4; 5]; p_elig := [2; 3; 4; 5];
+  {| p_nice := 3; p_ioprio := 16389; p_mask := [2; 5]; p_elig := [2; 3; 5; 8; 9];
      p_rlim := [(0,0);(1,2);(-1,-1);(5,-1);(0,0);(0,0);(0,0);(1024,4096);(0,0);(0,0);(0,0);(0,0);(0,0);(0,0);(0,0);(7,-1)] |}.
 Definition ex_k : kernel := {| k_procs := [(7, mkp [0] [0; 1]); (4242, ex_p)]; k_ncpu := 8; k_nr_cpu_ids := 128 |}.
 Example hypotheses_satisfiable :
-  wf_kernelb ex_k = true /\ kget 4242 ex_k = Some ex_p /\ wf_procb ex_k ex_p = true /\ plain_eligb ex_p = true
-  /\ uses_eligible ex_p (Affinity (Some [])) = true /\ uses_eligible ex_p (Affinity (Some [9; 9])) = true
-  /\ huge_cpu (Affinity (Some [9; 9])) = false
+  wf_kernelb ex_k = true /\ kget 4242 ex_k = Some ex_p /\ wf_procb ex_k ex_p = true
   /\ (exists exp, spec_req 4242 (Affinity (Some [])) ex_k = Some exp)
   /\ (exists exp, spec_req 4242 (Affinity (Some [5; 2; 5])) ex_k = Some exp)
+  /\ (exists exp, spec_req 4242 (Affinity (Some [4; 99])) ex_k = Some exp)
   /\ (exists exp, spec_req 4242 (Rlimit 3 (Some [7; -1])) ex_k = Some exp).
 Proof. repeat split; try (vm_compute; reflexivity); eexists; vm_compute; reflexivity. Qed.
